@@ -73,7 +73,9 @@ J run_plan(const J &plan, int verbose, const char *trace_path);
 // monitors shared by several scenarios
 Monitor *mk_world_tracker(World *w);          // handshake/tunnel phase, client ips (must be first)
 Monitor *mk_c01_integrity(World *w);
-Monitor *mk_c02_delivery(World *w, bool clean_a, bool recovery_b);
+Monitor *mk_c02_delivery(World *w, bool clean_a, bool recovery_b, const std::string &prop = "C02");
+Monitor *mk_c16_redeliver(World *w);
+Monitor *mk_c15_fragsize(World *w);
 Monitor *mk_c10_wellformed(World *w);
 Monitor *mk_c14_ledger(World *w, bool check_held);
 Monitor *mk_probes(World *w);
